@@ -7,7 +7,7 @@ func verifCheckInserted(body, dec, nonce string) {
 	if !verifStubActive() {
 		return
 	}
-	if len(body) > 0 && body[0] == 'F' {
+	if len(body) >= 9 && body[:9] == "<frameset" {
 		// no body element: the document passes through, still consistently encoded
 		symAssert(dec == body, "a document without a body element is delivered unchanged (and still decodes with the declared encoding)")
 		return
